@@ -20,9 +20,9 @@ from . import c08
 PROBE = realrun.host_global('probe')
 
 
-def hist_case(seed, length, names=None):
+def hist_case(seed, length, names=None, first=None):
     rnd = random.Random(seed)
-    model = gen_lib.history(rnd, length, names)
+    model = gen_lib.history(rnd, length, names, first)
     text = '\n'.join(A.jump_text(model)) + '\n'
     script = realrun.bare_script.parse_script(text)
     c = {'kind': 'script', 'model': A.amodel(script), 'real_model': script, 'globals': gen_lib.pool_globals() + [PROBE],
@@ -116,6 +116,9 @@ def run(ctx, replay=None):
             F.judge(ctx, 'Trace_Core', [c], None, invariants=c08.INVS, describe=describe, key_fields=('text',))
         return F.finish(ctx, rule='replay')
     jobs = single_call_cases(rnd, ctx.pick(12, 150))
+    bc = gen_lib.boundary_calls()
+    jobs += [(7, 0, [name], e) for name, e in bc]            # seed 7: the canonical pool (a1 = [1, 2, 3], s1 = 'hello')
+    ctx.notes['boundary_calls'] = len(bc)
     jobs += [(rnd.randrange(1 << 30), rnd.choice([3, 8, 15, 30]), None) for _ in range(ctx.pick(500, 20000))]
     cases = F.pmap(hist_case, jobs)
     F.judge(ctx, 'Trace_Core', cases, canaries, invariants=c08.INVS, describe=describe, key_fields=('text',),
